@@ -137,6 +137,11 @@ var c18Stmts = []c18Stmt{
 	{"update-order-limit", "UPDATE t SET a = ? WHERE b > ? ORDER BY a DESC LIMIT 1", 2, true, false, nil},
 	{"delete-order-limit-arg", "DELETE FROM t WHERE a <> ? ORDER BY b LIMIT ?", 2, true, false, map[int]int64{1: 1}},
 	{"delete-all-rows", "DELETE FROM t WHERE a = a", 0, true, false, nil},
+	// batches go through the multi-statement executors (literals only: a prepared batch cannot bind arguments)
+	{"multi-update-two-rows", "UPDATE t SET a = 5 WHERE id = 10; UPDATE t SET b = 6 WHERE id = 20", 0, true, false, nil},
+	{"multi-update-same-row", "UPDATE t SET a = 5 WHERE id = 10; UPDATE t SET a = 7, b = 6 WHERE id = 10", 0, true, false, nil},
+	{"multi-update-by-data", "UPDATE t SET a = 5 WHERE b > 3; UPDATE t SET b = 6 WHERE a < 9", 0, true, false, nil},
+	{"multi-delete", "DELETE FROM t WHERE id = 10; DELETE FROM t WHERE a > 4", 0, true, false, nil},
 }
 
 func c18RowKey(d *aDB, cells []int64) string {
@@ -145,6 +150,18 @@ func c18RowKey(d *aDB, cells []int64) string {
 		parts = append(parts, strconv.FormatInt(cells[p], 10))
 	}
 	return strings.Join(parts, "_")
+}
+
+func c18Union(imgs []*types.RecordImage) *types.RecordImage {
+	u := &types.RecordImage{}
+	for _, im := range imgs {
+		if im == nil {
+			continue
+		}
+		u.TableName, u.SQLType, u.TableMeta = im.TableName, im.SQLType, im.TableMeta
+		u.Rows = append(u.Rows, im.Rows...)
+	}
+	return u
 }
 
 // image row -> cells by column name (only the columns present in the image)
@@ -284,6 +301,10 @@ func c18Run(checkImages, checkLocks bool) {
 		return
 	}
 	befores, afters := w.c.txCtx.RoundImages.BeofreImages(), w.c.txCtx.RoundImages.AfterImages()
+	if strings.HasPrefix(st.name, "multi-") {
+		// the batch executors may record one image per table or several: compare their union
+		befores, afters = []*types.RecordImage{c18Union(befores)}, []*types.RecordImage{c18Union(afters)}
+	}
 	vrt.Assert(len(befores) == 1 && len(afters) == 1, "c18/one-image-pair/"+st.name)
 	if len(befores) != 1 || len(afters) != 1 {
 		return
